@@ -817,6 +817,66 @@ def heavy_regex(s):
     return cnt[0] >= 1 or cnt[1] >= 3
 
 
+def list_undef_atom(rng, nstr, hints=()):
+    """`for K i in (e1, .., undefined, ..) : (body using $s and i)`: 0-2 string-dependent or constant elements, then an
+    element that is undefined on these inputs, then possibly more.  With a hint (v, o, l) two times out of three the
+    targeted shape: exactly one constant element o in front, body `$v at i` (true on it), quantifier `any`."""
+    if hints and rng.chance(2, 3):
+        v, o, l = rng.choice(list(hints))
+        undef = rng.choice([("readint", "uint8", ("int", 5000)), ("bin", "div", ("int", 1), ("int", 0))])
+        post = [("int", o + 1)] if rng.chance(1, 3) else []
+        return ("forlist", rng.choice(["any", "any", "any", "expr"]), ("int", 1), [("int", o), undef] + post,
+                rng.choice([("varat", v, ("bound", 0)), ("varin", v, ("bound", 0), ("bound", 0))]))
+    v = rng.below(nstr)
+    undef = rng.choice([("readint", "uint8", ("int", 5000)), ("offset", v, ("int", 50)), ("bin", "div", ("int", 1), ("int", 0))])
+    pre = [rng.choice([("int", 0), ("int", 1), ("count", v), ("offset", v, ("int", 1))]) for _ in range(rng.range(0, 2))]
+    post = [rng.choice([("int", 0), ("int", 2), ("count", v)]) for _ in range(rng.range(0, 1))]
+    body = rng.choice([("varat", v, ("bound", 0)), ("bin", "ge", ("count", v), ("bound", 0)), ("bin", "eq", ("bound", 0), ("int", 0)),
+                       ("varin", v, ("int", 0), ("bound", 0))])
+    return ("forlist", rng.choice(["any", "any", "all", "none"]), None, pre + [undef] + post, body)
+
+
+# (P, n, k) with n <= 64, 1 <= P <= 100, where libyara's binary64 test (k / n) * 100 >= P differs from the other natural
+# binary64 form k * 100 / n >= P or from exact arithmetic k * 100 >= P * n: the rounding edges of `P% of them`
+def percent_edges():
+    out = []
+    for n in range(1, 65):
+        for k in range(0, n + 1):
+            for P in range(1, 101):
+                a = (float(k) / float(n)) * 100.0 >= float(P)
+                b = float(k) * 100.0 / float(n) >= float(P)
+                e = k * 100 >= P * n
+                if a != b or a != e:
+                    out.append((P, n, k))
+    return out
+
+
+PERCENT_EDGES = percent_edges()
+
+
+def gen_percent_edge_case(rng):
+    """a file of its own: n strings, `P% of them` on a rounding edge of libyara's test, inputs holding k-1, k, k+1 of the
+    strings (two-way only)"""
+    if rng.chance(1, 2):
+        P, n, k = rng.choice(PERCENT_EDGES)
+    else:
+        # the quota is an integer: found / n * 100 lands on P exactly (up to rounding)
+        n = rng.range(2, 64)
+        k = rng.range(1, n)
+        cands = [P for P in range(1, 101) if P * n == k * 100]
+        P = rng.choice(cands) if cands else max(1, min(100, (100 * k) // n))
+    names = ["k%02dz" % i for i in range(n)]
+    strings = [{"name": "_k%d" % i, "kind": "text",
+                "decl": {"text": t.encode().hex(), "ascii": False, "wide": False, "nocase": False, "fullword": False,
+                         "xor": None, "b64": None}} for i, t in enumerate(names)]
+    inputs = []
+    for f in (k, max(0, k - 1), min(n, k + 1)):
+        inputs.append(" ".join(rng.shuffle(names)[:f]).encode().hex())
+    r = {"ns": 0, "name": "pc", "global": False, "private": False, "strings": strings, "cond": ("raw", "%d%% of them" % P),
+         "id": 0, "tail": False, "ord_index": 0}
+    return {"rules": [r], "nns": 1, "inputs": inputs, "imports": [], "split": False}
+
+
 def nested_of_atom(rng, nstr):
     """`for K of (set) : ( <N of (set2)> op <anonymous reference> )`: the anonymous string must still be the loop's after
     the nested set quantifier"""
@@ -906,6 +966,12 @@ def gen_case(rng, kf_global=False):
                 break
         else:
             c = ("bool", True)
+        if nstr and rng.chance(1, 8):
+            # a small stream inside recorded finding 14 (an enumeration with an element that can be undefined), with
+            # string-dependent elements / bodies in front of the undefined one: the verdicts may differ from libyara's
+            # (KNOWN-FINDING), but boreal's two configurations must still agree with each other
+            atom = list_undef_atom(rng, nstr, mine)
+            c = atom if rng.chance(1, 2) else (rng.choice(["and", "or"]), [c, atom])
         # a conjunct that is always true and makes libyara record every match of every string (see notes: without
         # it libyara keeps only the match at K for a string used only as `$s at K`)
         tail = nstr > 0 and not rng.chance(1, 6)
@@ -1245,6 +1311,8 @@ class C07(Prop):
             out.append(json.loads(json.dumps(c, default=lambda b: list(b))))
         for i in range(max(12, n // 16)):
             out.append(gen_limits_case(rng.fork("lim%d" % i)))
+        for i in range(max(6, n // 80)):
+            out.append(json.loads(json.dumps(gen_percent_edge_case(rng.fork("pe%d" % i)), default=lambda b: list(b))))
         return out
 
     # ---------------------------------------------------------------- execution
